@@ -4,10 +4,15 @@ import json, os, shutil, sys
 P, K = sys.argv[1], sys.argv[2]
 status = sys.argv[3] if len(sys.argv) > 3 else 'unknown'
 O = f'/tmp/mut/out_{P}'
-ROUND2 = P.endswith('r2')
-if ROUND2:
-    P = P[:-2]
-D = f'/verif/seeded/{P}-{int(K) + 2 if ROUND2 else K}'
+import re
+mr = re.match(r'(C\d\d)r(\d)$', P)
+OFF = 0
+if mr:
+    P, OFF = mr.group(1), 2 * (int(mr.group(2)) - 1)
+    # the third agent round of a property may follow a property that only had one earlier round
+    while os.path.exists(f'/verif/seeded/{P}-{int(K) + OFF}') and OFF < 8 and os.environ.get('SEED_APPEND'):
+        OFF += 2
+D = f'/verif/seeded/{P}-{int(K) + OFF}'
 os.makedirs(D, exist_ok=True)
 shutil.copy(f'{O}/patch{K}.diff', f'{D}/patch.diff')
 shutil.copy(f'{O}/demo{K}.py', f'{D}/demo.py')
